@@ -247,7 +247,9 @@ var c18Unlisted = []string{"IntervalDay", "IntervalSecond", "IntervalMonth", "Li
 	"TINYINT", "REAL", "BLOB", "INET4", "MyType"}
 
 var c18ElemNames = []string{"a", "b", "c", "x", "y", "id", "name", "value", "key", "k1", "_f", "col_2", "ts", "n", "s", "status", "type", "index", "A1",
-	"comment", "default", "alias", "ttl", "materialized", "codec", "settings", "primary", "order", "format", "select", "from", "as", "to", "in", "is", "not", "null"}
+	"comment", "default", "alias", "ttl", "materialized", "codec", "settings", "primary", "order", "format", "select", "from", "as", "to", "in", "is", "not", "null",
+	// every boundary of the plain-identifier character classes: a z A Z 0 9 _
+	"a9", "z0", "Z9", "A0", "c1999", "x0123456789", "_9", "az_AZ_09", "q9q", "Zz", "_", "__a"}
 
 // element names that are not plain ASCII words: written in backticks, shown in backticks (the Lean model and
 // spec are only consulted for plain names; these are compared with the Go oracle alone)
